@@ -34,11 +34,32 @@ theorem LinkedS.contained {areas : List AreaT} {g : Gene} {d : AreaT} {s : Secti
   obtain ⟨h1, h2⟩ := downNodes_sound g a.size none a (d, s) (Nat.le_refl _) hc hd
   exact ⟨h1, a, ha, h2⟩
 
-theorem registered_eq_live {L : Live} {ever : List AreaT} {r : Rec} (c : InvCore L ever r) : registered r = L.areas := by
+theorem registered_eq_live {S : Prop} {L : Live} {ever : List AreaT} {r : Rec} (c : InvCore S L ever r) : registered r = L.areas := by
   simp only [registered, Live.areas, c.regionsEq, c.protosEq, c.candsEq, c.subsEq]
 
 /-- every collection currently in the record, and every descendant of one, lists exactly the genes its
     location contains -/
+theorem children_exact_of_inv {S : Prop} {len : Int} {ops : List Op} {r : Rec} (hinv : InvCore S (liveAfter ops) (opsAreas ops) r) (hok : HistoryOK ops)
+    (a : AreaT) (ha : a ∈ (liveAfter ops).areas) (d : AreaT) (hd : d ∈ nodes a) (gid : Nat) :
+    gid ∈ r.children d.id ↔ gid ∈ specChildren r.genes d := by
+  have inv := hinv
+  have har : a ∈ registered r := by rw [registered_eq_live inv]; exact ha
+  have hae := inv.liveEver a har
+  rw [mem_children]
+  simp only [specChildren, List.mem_map, List.mem_filter]
+  constructor
+  · intro hm
+    obtain ⟨g, hg, d', ⟨s, hl⟩, hx⟩ := inv.membersSound _ hm
+    injection hx with h1 h2
+    obtain ⟨hc, a', ha', hd'⟩ := hl.contained
+    have e := (hok.ids a' ha' a hae d' hd' d hd h1.symm).1
+    refine ⟨g, ⟨hg, ?_⟩, h2.symm⟩
+    rw [← containedBy_eq_spec (gene_le (inv.ok g hg)), ← e]; exact hc
+  · rintro ⟨g, ⟨hg, hc⟩, rfl⟩
+    rw [← containedBy_eq_spec (gene_le (inv.ok g hg))] at hc
+    obtain ⟨h1, s, h2⟩ := downNodes_complete g a.size none a d (Nat.le_refl _) (hok.inside a hae) hd hc
+    exact inv.membersComplete g hg d ⟨s, a, har, h1, h2⟩
+
 theorem children_exact {len : Int} {ops : List Op} {r : Rec} (hrun : run len ops = .ok r) (hok : HistoryOK ops)
     (a : AreaT) (ha : a ∈ (liveAfter ops).areas) (d : AreaT) (hd : d ∈ nodes a) (gid : Nat) :
     gid ∈ r.children d.id ↔ gid ∈ specChildren r.genes d := by
@@ -71,7 +92,7 @@ theorem definition_exact {len : Int} {ops : List Op} {r : Rec} (hrun : run len o
   simp only [specDefinition, List.mem_map, List.mem_filter, Bool.and_eq_true]
   constructor
   · intro hm
-    obtain ⟨g, hg, d', ⟨s, hl⟩, hdef, hx⟩ := inv.defsSound _ hm
+    obtain ⟨g, hg, d', ⟨s, hl⟩, hdef, hx⟩ := inv.defsSound trivial _ hm
     injection hx with h1 h2
     obtain ⟨hc, a', ha', hd'⟩ := hl.contained
     obtain ⟨e1, e2, e3, _⟩ := hok.ids a' ha' a hae d' hd' d hd h1.symm
@@ -83,7 +104,7 @@ theorem definition_exact {len : Int} {ops : List Op} {r : Rec} (hrun : run len o
   · rintro ⟨g, ⟨hg, ⟨hc, hcore⟩, hprod⟩, rfl⟩
     rw [← containedBy_eq_spec (gene_le (inv.ok g hg))] at hc hcore
     obtain ⟨h1, s, h2⟩ := downNodes_complete g a.size none a d (Nat.le_refl _) (hok.inside a hae) hd hc
-    refine inv.defsComplete g hg d ⟨s, a, har, h1, h2⟩ ?_
+    refine inv.defsComplete trivial g hg d ⟨s, a, har, h1, h2⟩ ?_
     have hp : d.product ∈ g.cores := by simpa using hprod
     simp [defines, hk, hcore, hp]
 
@@ -136,6 +157,35 @@ theorem down_root_section {g : Gene} {a : AreaT} {s : Section} (h : (a, s) ∈ d
     omega
 
 /-- a region's three sections: the genes it contains, split by the rule of `specSection` -/
+theorem region_sections_exact_of_inv {S : Prop} {len : Int} {ops : List Op} {r : Rec} (hinv : InvCore S (liveAfter ops) (opsAreas ops) r) (hok : HistoryOK ops)
+    (a : AreaT) (ha : a ∈ r.regions) (s : Section) (gid : Nat) :
+    gid ∈ r.section a.id s ↔
+      ∃ g ∈ r.genes, g.id = gid ∧ specContained g.loc a.loc = true ∧ specSection a.loc g.loc = s := by
+  have inv := hinv
+  have har := regions_sub_registered r a ha
+  have hae := inv.liveEver a har
+  have hka := inv.kindsR a ha
+  rw [mem_section]
+  constructor
+  · intro hm
+    obtain ⟨g, hg, d, s', hl, hx⟩ := inv.sectionsSound _ hm
+    injection hx with h1 h2
+    injection h1 with h1 h3
+    obtain ⟨a', ha', hc, hd⟩ := hl
+    obtain ⟨_, hn⟩ := downNodes_sound g a'.size none a' (d, s') (Nat.le_refl _) hc hd
+    obtain ⟨e1, _, _, e4⟩ := hok.ids a' ha' a hae d hn a (nodes_self a) h1.symm
+    have hroot := (inv.areasOK a' ha').2 d hn (by rw [e4]; exact hka)
+    subst hroot
+    have hs := down_root_section hd
+    refine ⟨g, hg, h2.symm, ?_, ?_⟩
+    · rw [← containedBy_eq_spec (gene_le (inv.ok g hg)), ← e1]; exact hc
+    · rw [h3, hs, ownSection_eq_spec d g (inv.ok g hg), e1]
+  · rintro ⟨g, hg, rfl, hc, hs⟩
+    rw [← containedBy_eq_spec (gene_le (inv.ok g hg))] at hc
+    have := inv.sectionsComplete g hg a (ownSection a g none) ⟨a, har, hc, downNodes_self g none a⟩
+    rw [ownSection_eq_spec a g (inv.ok g hg), hs] at this
+    exact this
+
 theorem region_sections_exact {len : Int} {ops : List Op} {r : Rec} (hrun : run len ops = .ok r) (hok : HistoryOK ops)
     (a : AreaT) (ha : a ∈ r.regions) (s : Section) (gid : Nat) :
     gid ∈ r.section a.id s ↔
